@@ -707,7 +707,7 @@ def _name_map_with_stmt_starts(rel, tree, positions, other_positions, old, new):
 _RENAME_KINDS = {"rename-local": "assign", "rename-param": "param", "rename-function": "def", "rename-class": "class"}
 
 
-def py_rename(files, rng, rel, kind, protected=(), multi_file=False):
+def py_rename(files, rng, rel, kind, protected=(), multi_file=False, only=None):
     """Rename ONE binding (all occurrences that resolve to it, nowhere else) to a name that occurs nowhere."""
     text = files[rel]
     try:
@@ -718,7 +718,7 @@ def py_rename(files, rng, rel, kind, protected=(), multi_file=False):
     if b.calls_dynamic:
         return None
     if kind == "rename-method":
-        return _py_rename_method(files, rng, rel, b, protected, multi_file)
+        return _py_rename_method(files, rng, rel, b, protected, multi_file, only)
     want = _RENAME_KINDS[kind]
     # ascii-only lines for col arithmetic (ast columns are utf-8 byte offsets)
     cands = []
@@ -737,6 +737,8 @@ def py_rename(files, rng, rel, kind, protected=(), multi_file=False):
             if want == "param" and name in b.keywords:
                 continue
             if want in ("def", "class") and (name in b.keywords or name in b.attrs):
+                continue
+            if only is not None and name != only:
                 continue
             cands.append((s, name))
     if not cands:
@@ -778,14 +780,16 @@ def py_rename(files, rng, rel, kind, protected=(), multi_file=False):
         after = _symtable_sig(new_text)
     except SyntaxError:
         return None
-    touched = set()
+    touched = set()          # scopes in which the name is written and refers to the binding
+    passing = set()          # scopes a FREE variable passes through on its way to the binding scope
     for s in touched_scopes:
-        t = s
-        while t is not None:
-            touched.add(_sym_key(t))
-            if t is scope:
-                break
+        touched.add(_sym_key(s))
+        t = s.parent if s is not scope else None
+        while t is not None and t is not scope:
+            passing.add(_sym_key(t))
             t = t.parent
+        touched.add(_sym_key(scope))
+    passing -= touched
     renamed_scope_keys = set()
     if want in ("def", "class"):
         for s in b.scopes:
@@ -795,7 +799,9 @@ def py_rename(files, rng, rel, kind, protected=(), multi_file=False):
     for key, tabs in before.items():
         k2 = (new, key[1]) if key in renamed_scope_keys else key
         for d in tabs:
-            if key in touched and old in d:
+            # a scope the name merely passes through holds it only as a free variable; a scope in between that BINDS
+            # the same spelling itself (a class body with a member of that name) keeps its own symbol
+            if old in d and (key in touched or (key in passing and d[old][3])):
                 d = {(new if k == old else k): v for k, v in d.items()}
             exp.setdefault(k2, []).append(d)
     if _norm_sig(exp) != _norm_sig(after):
@@ -811,9 +817,67 @@ def py_rename(files, rng, rel, kind, protected=(), multi_file=False):
                 target=rel)
 
 
-def _py_rename_method(files, rng, rel, b, protected, multi_file):
+def _py_rename_unreferenced_member(files, rng, rel, b, protected, only):
+    """A method that is referenced NOWHERE as an attribute (no `.name` in the project, no getattr/dynamic access, not a
+    dunder, its class has no bases — nobody can call it): renaming the def token alone preserves meaning even when
+    the same spelling is bound in other, non-class scopes (a module-level function of that name)."""
+    text = files[rel]
+    cands = []
+    for name, defs in b.method_defs.items():
+        if only is not None and name != only:
+            continue
+        if len(defs) != 1 or name.startswith("__") or name in protected or name in b.keywords or name in b.attrs:
+            continue
+        cls_scope, node, pos = defs[0]
+        if pos is None or getattr(node, "decorator_list", None) or cls_scope.node.bases or cls_scope.node.keywords:
+            continue
+        if any(name in s.bound for s in b.scopes if s.kind == "class" and s is not cls_scope):
+            continue
+        if any(re.search(r"\." + re.escape(name) + r"\b", t) for t in files.values()) or any(name in x for x in b.strings):
+            continue
+        # no use of the bare name inside the class body itself (it would refer to the member there)
+        if any(u[0] == name and (u[1], u[2]) != pos for u in cls_scope.uses):
+            continue
+        cands.append(name)
+    if not cands:
+        return None
+    old = rng.choice(sorted(cands))
+    new = fresh_name(files, rng, old[:12])
+    if new is None:
+        return None
+    cls_scope, node, pos = b.method_defs[old][0]
+    if not b.lines[pos[0] - 1].isascii():
+        return None
+    new_text = _apply_renames(text, {pos}, old, new)
+    if new_text is None:
+        return None
+    try:
+        ta, tb = ast.parse(text), ast.parse(new_text)
+    except SyntaxError:
+        return None
+    hits = 0
+    for n in ast.walk(tb):
+        if isinstance(n, (ast.FunctionDef, ast.AsyncFunctionDef)) and n.name == new:
+            n.name = old
+            hits += 1
+    if hits != 1 or ast.dump(ta) != ast.dump(tb):
+        return None
+    others = {(ln, col) for s in b.scopes for (nm_, ln, col) in s.uses if nm_ == old} - {pos}
+    nm = _name_map_with_stmt_starts(rel, ta, {pos}, others, old, new)
+    if nm is None:
+        return None
+    out = dict(files)
+    out[rel] = new_text
+    return Step("rename-method", out, identity_line_map(files), name_map=nm,
+                detail={"file": rel, "old": old, "new": new, "class": cls_scope.name, "occurrences": 1,
+                        "member_never_referenced": True, "same_spelling_bound_elsewhere": bool(others)}, target=rel)
+
+
+def _py_rename_method(files, rng, rel, b, protected, multi_file, only=None):
     """A method whose name is used for nothing else in the project: rename the def and every `.name` attribute."""
     text = files[rel]
+    if only is not None:
+        return _py_rename_unreferenced_member(files, rng, rel, b, protected, only)
     blob_other = "\n".join(t for r, t in files.items() if r != rel)
     cands = []
     for name, defs in b.method_defs.items():
@@ -1014,7 +1078,7 @@ def py_reorder(files, rng, rel):
 PY_BUILTINS = set(dir(__import__("builtins")))
 
 
-def py_move_to_file(files, rng, rel, protected=(), injected=("out", "sink"), helper=None, only=None):
+def py_move_to_file(files, rng, rel, protected=(), injected=("out", "sink"), helper=None, only=None, into=None):
     """Move one self-contained top-level function into a new module and import it where the def statement stood.
     `rel` may be ANY file of the project: when other files already import the function from `rel`, the file becomes a
     re-exporting intermediate module (`main: from lib import f`, `lib: from core import f`). `only`: move this function."""
@@ -1067,14 +1131,37 @@ def py_move_to_file(files, rng, rel, protected=(), injected=("out", "sink"), hel
     if not cands:
         return None
     st = rng.choice(cands)
-    if helper is None:
-        helper = fresh_name(files, rng, rng.choice(["helper_mod", "zz_util", "aa_lib"]))
-        if helper is None:
+    offset = 0
+    if into is not None:
+        # an EXISTING module of the project (self-contained: it imports nothing of the project, so no cycle arises):
+        # the function is appended to it; the module must not know the name yet
+        if into not in files or into == rel or not into.endswith(".py"):
             return None
-    d = os.path.dirname(rel)
-    hrel = os.path.join(d, helper + ".py") if d else helper + ".py"
-    if hrel in files:
-        return None
+        cands = [c for c in cands if not re.search(r"\b" + re.escape(c.name) + r"\b", files[into])]
+        if not cands:
+            return None
+        st = rng.choice(cands)
+        try:
+            tgt_tree = ast.parse(files[into])
+        except SyntaxError:
+            return None
+        if any(isinstance(n, (ast.Import, ast.ImportFrom)) for n in ast.walk(tgt_tree)):
+            return None
+        helper = into[:-3].replace("/", ".")
+        if helper.endswith(".__init__"):
+            return None
+        hrel = into
+        existing = split_lines(files[into])
+        offset = len(existing) + 2
+    else:
+        if helper is None:
+            helper = fresh_name(files, rng, rng.choice(["helper_mod", "zz_util", "aa_lib"]))
+            if helper is None:
+                return None
+        d = os.path.dirname(rel)
+        hrel = os.path.join(d, helper + ".py") if d else helper + ".py"
+        if hrel in files:
+            return None
     lines = split_lines(text)
     s, e = st.lineno, st.end_lineno
     moved = lines[s - 1:e]
@@ -1083,7 +1170,7 @@ def py_move_to_file(files, rng, rel, protected=(), injected=("out", "sink"), hel
     new_main = lines[:s - 1] + [f"from {helper} import {st.name}"] + lines[e:]
     out = dict(files)
     out[rel] = join_lines(new_main)
-    out[hrel] = join_lines(moved)
+    out[hrel] = join_lines(moved) if into is None else join_lines(existing + ["", ""] + moved)
     try:
         ast.parse(out[rel]); ast.parse(out[hrel])
     except SyntaxError:
@@ -1093,10 +1180,18 @@ def py_move_to_file(files, rng, rel, protected=(), injected=("out", "sink"), hel
         if i < s:
             lm[(rel, i)] = (rel, i)
         elif i <= e:
-            lm[(rel, i)] = (hrel, i - s + 1)
+            lm[(rel, i)] = (hrel, offset + i - s + 1)
         else:
             lm[(rel, i)] = (rel, i - (e - s + 1) + 1)
-    alias = {(hrel, 1, st.name): [(rel, s, st.name)]}
+    alias = {(hrel, offset + 1, st.name): [(rel, s, st.name)]}
+    if into is not None:
+        mod = into[:-3].replace("/", ".")
+        ali = re.compile(r"^\s*(import\s+" + re.escape(mod) + r"\s+as\s+\w+|from\s+" + re.escape(mod) + r"\s+import\s+\w+\s+as\s+\w+"
+                         + (r"|import\s+" + re.escape(mod) + r"\s*$" if "." in mod else "") + ")", re.M)
+        aliasers = sorted(r for r, t in files.items() if r not in (rel, into) and ali.search(t))
+        return Step("move-to-file", out, lm, decl_alias=alias,
+                    detail={"file": rel, "function": st.name, "helper": hrel, "lines": [s, e], "into_existing_module": True,
+                            "aliased_by": aliasers}, target=rel)
     pat = re.compile(r"^\s*(from\s+" + re.escape(os.path.basename(rel)[:-3]) + r"\s+import\b|import\s+" + re.escape(os.path.basename(rel)[:-3]) + r"\b)", re.M)
     importers = sorted(r for r, t in files.items() if r != rel and pat.search(t) and re.search(r"\b" + re.escape(st.name) + r"\b", t))
     return Step("move-to-file", out, lm, decl_alias=alias,
@@ -1182,7 +1277,7 @@ def ts_tokens(lang, text, repo):
         if n.child_count == 0 or n.type in ("string", "string_literal", "template_string", "interpreted_string_literal",
                                              "raw_string_literal", "encapsed_string", "heredoc", "char_literal"):
             toks.append((n.type, data[n.start_byte:n.end_byte].decode("utf-8", "replace"), n.start_point[0] + 1,
-                         parent, n.end_point[0] + 1))
+                         parent, n.end_point[0] + 1, n.start_point[1]))
         else:
             for c in reversed(n.children):
                 stack.append((c, n.type))
@@ -1201,7 +1296,7 @@ def ts_blank_lines(lang, files, rng, rel, repo, dense=None):
     if n == 0:
         return None
     bad = set()
-    for (ty, tx, row, par, erow) in toks:
+    for (ty, tx, row, par, erow, _col) in toks:
         if erow > row:
             bad.update(range(row + 1, erow + 1))
     if lang == "php":
@@ -1370,6 +1465,61 @@ def ts_rename(lang, files, rng, rel, repo, names, kind):
         return Step(kind, out, identity_line_map(files), name_map=nm,
                     detail={"file": rel, "old": old, "new": new, "occurrences": len(occ)}, target=rel)
     return None
+
+
+def ts_rename_tokens(lang, files, rng, rel, repo, old, token_types, kind):
+    """Rename ONE of several entities that share a spelling (a function `helper` and a never-referenced class member
+    `helper`): only the tokens of the given tree-sitter types (`identifier` = the variable/function namespace,
+    `property_identifier` = the member namespace) are replaced. The program's author declares that the tokens of these
+    types with this spelling are one entity; the editor proves that exactly those tokens changed and nothing else."""
+    text = files[rel]
+    toks, err = ts_tokens(lang, text, repo)
+    if err:
+        return None
+    sel = [i for i, t in enumerate(toks) if t[1] == old and t[0] in token_types]
+    rest = [i for i, t in enumerate(toks) if t[1] == old and t[0] not in token_types]
+    if not sel:
+        return None
+    if any(not (t[0] in IDENT_TYPES or t[0].endswith("identifier")) for t in (toks[i] for i in rest)):
+        return None            # the spelling also occurs in a string or another role we cannot classify
+    pat = re.compile(r"(?<![A-Za-z0-9_$])" + re.escape(old) + r"(?![A-Za-z0-9_$])")
+    if len(pat.findall(text)) != len(sel) + len(rest):
+        return None            # also inside a comment / string
+    if any(fp != rel and pat.search(t) for fp, t in files.items()):
+        return None
+    new = fresh_name(files, rng, old[:12])
+    if new is None:
+        return None
+    lines = split_lines(text)
+    by_line = {}
+    for i in sel:
+        by_line.setdefault(toks[i][2], []).append(toks[i][5])
+    for ln, cols in by_line.items():
+        l = lines[ln - 1]
+        if not l.isascii():
+            return None
+        for col in sorted(cols, reverse=True):
+            if l[col:col + len(old)] != old:
+                return None
+            l = l[:col] + new + l[col + len(old):]
+        lines[ln - 1] = l
+    new_text = join_lines(lines)
+    toks2, err2 = ts_tokens(lang, new_text, repo)
+    if err2 or len(toks2) != len(toks):
+        return None
+    for i, (a, c) in enumerate(zip(toks, toks2)):
+        want = new if i in sel else a[1]
+        if (a[0], want, a[2]) != (c[0], c[1], c[2]):
+            return None
+    out = dict(files)
+    out[rel] = new_text
+    unren_lines = {toks[i][2] for i in rest}
+    if unren_lines & set(by_line):
+        return None            # both entities on one line: the line-keyed name map would be ambiguous
+    nm = {(rel, ln, old): new for ln in by_line}
+    return Step(kind, out, identity_line_map(files), name_map=nm,
+                detail={"file": rel, "old": old, "new": new, "occurrences": len(sel), "token_types": list(token_types),
+                        "same_spelling_left_alone": len(rest)}, target=rel)
 
 
 def ts_reorder(lang, files, rng, rel, repo, groups, reverse=False, hierarchy=()):
